@@ -60,6 +60,7 @@ Inductive obs :=
 | O_face_area (l : list dy)
 | O_face_normals (l : list dy3)
 | O_face_bary (l : list dy3)
+| O_circum (l : list dy3)
 | O_cot (l : list dy)
 | O_cw (l : list dy)
 | O_degree (l : list Z)
@@ -104,6 +105,7 @@ Definition check_obs (c : case) (mf : mesh float) (mq : mesh Q) (ang : list floa
   | O_face_area l => lF (face_area fo mf) l
   | O_face_normals l => lF3 (face_normals fo mf) l
   | O_face_bary l => lQ3 (face_barycenter qo mq) l
+  | O_circum l => all2 (fun a b => match a with Some x => v3cl fcl x (dy3F b) | None => false end) (face_circumcenter fo mf) l
   | O_cot l => lF (cotangent fo mf) l
   | O_cw l => lF (cotan_weights fo mf) l
   | O_degree l => list_eqb Z.eqb (degree mf) l
